@@ -53,6 +53,29 @@ def tree_failures(P, grammar, s, i, rules=None, decoy=None):
     return bad
 
 
+# letters whose Unicode case mapping is irregular: a case-insensitive literal must NOT accept them, and whatever
+# precedes them must not shift what is compared (U+0130 lower-cases to two characters)
+PARTNERS = {"k": "\u212a", "K": "\u212a", "s": "\u017f", "S": "\u017f", "i": "\u0131", "I": "\u0130"}
+CASE_CORPUS = [
+    ([("r0", ("lit", "ok", False), None)], ["ok", "OK", "o\u212a", "O\u212a", "\u0130ok"]),
+    ([("r0", ("cat", [("range", 0x130, 0x130), ("range", 0x61, 0x61), ("lit", "a", False)]), None)], ["\u0130aa", "\u0130ab", "\u0130aA"]),
+    ([("r0", ("cat", [("rep", 0, None, ("range", 0x80, 0x2FF)), ("lit", "Is", False), ("lit", "k", True)]), None)],
+     ["isk", "ISk", "\u0131sk", "\u0130sk", "i\u017fk", "\u0130\u0130isk", "\u0130Isk", "is\u212a"]),
+    ([("r0", ("rep", 1, None, ("alt", [("lit", "s", False), ("lit", "K", False), ("lit", "i", False)], False)), None)],
+     ["ski", "SKI", "\u017f\u212a\u0131", "s\u017f", "\u0130ski", "k\u0130i"]),
+]
+
+
+def partner_variants(s):
+    out = []
+    for k, c in enumerate(s):
+        if c in PARTNERS:
+            out.append(s[:k] + PARTNERS[c] + s[k + 1:])
+    if s:
+        out.append("\u0130" + s)
+    return out
+
+
 def run(ctx):
     P = lib.import_repo()
     cc.proof_part(ctx)
@@ -74,10 +97,24 @@ def run(ctx):
                        {"kind": "engine", "mode": MODE, **d}, key="engine:" + lib.digest([d["grammar"], d["source"], d["offset"]]))
     # independent of the model: run the derivation checker on a sample of all listed trees
     checked = 0
+    for gr, sources in CASE_CORPUS:
+        cls_w, rules_w = G.build(P, gr)
+        for s in sources:
+            for i in range(len(s) + 1):
+                bad = tree_failures(P, gr, s, i, rules=rules_w)
+                checked += 1
+                if bad and rep < 3:
+                    found = True
+                    rep += 1
+                    ctx.report("tree is not a faithful derivation: source=%r offset=%d: %s" % (s, i, bad[0]),
+                               {"kind": "engine", "mode": MODE, "grammar": gr, "source": [ord(c) for c in s], "source_repr": repr(s),
+                                "offset": i, "tree_failures": bad[:5], "implementation": "", "model": "", "query": "lparse"},
+                               key="engine:" + lib.digest([gr, [ord(c) for c in s], i]))
     gcases = ec.gen_cases(ctx.seed + 7777, ctx.budget(60, 600), 8)
     for gr, cases in gcases:
         cls_w, rules_w = G.build(P, gr)   # one build per grammar: caches stay warm across sources/offsets
         cases = cases[:20] + [(s[1:], max(0, i - 1)) for s, i in cases[:6] if len(s) > 1] + [("zz" + s, i + 2) for s, i in cases[:6]]
+        cases += [(v, 0) for s, _ in cases[:8] for v in partner_variants(s)[:3]]
         for s, i in cases:
             bad = ec.with_budget(ec.CASE_BUDGET_S, lambda: tree_failures(P, gr, s, i, rules=rules_w), None)
             if bad is None:
